@@ -46,7 +46,7 @@ def compare(rep, geo, rng, key, det, work, viafile):
                     rep.violation(key + ":P_reread_grid", "P_reread_grid", det)
                     return
             # the reconstructed geometry may be asked for in another naming convention: the block map then carries every name
-            conv2 = geo.convention if rng.random() < 0.6 else rng.choice([c for c in (0, 1, 2) if c != geo.convention and (c != 1 or geo.num_columns <= 99)])
+            conv2 = geo.convention if rng.random() < 0.6 else rng.choice([c for c in (0, 1, 2) if c != geo.convention and (c != 1 or geo.num_nodes <= 99)])      # (convention 1 names nodes with two characters as well)
             det["rectgeo_convention"] = conv2
             # layer_snap: the default, or none at all (stepped surfaces lie on layer boundaries already)
             snap = {} if rng.random() < 0.6 or not det.get("stepped_on_boundaries", False) else {"layer_snap": 0.0}
